@@ -42,7 +42,21 @@ pub fn gen_episode(verif_seed: u64, index: u64) -> Episode {
     ep
 }
 
+thread_local! {
+    static PATTERNS: std::cell::RefCell<Vec<String>> = const { std::cell::RefCell::new(Vec::new()) };
+}
+
+fn note_pattern(name: &str) {
+    PATTERNS.with(|p| {
+        let mut p = p.borrow_mut();
+        if !p.iter().any(|x| x == name) {
+            p.push(name.to_string());
+        }
+    });
+}
+
 fn gen_episode_inner(verif_seed: u64, index: u64) -> Episode {
+    PATTERNS.with(|p| p.borrow_mut().clear());
     let seed = mix(verif_seed, index);
     let mut rng = Rng::new(seed);
     let cat = catalogue();
@@ -124,6 +138,7 @@ fn gen_episode_inner(verif_seed: u64, index: u64) -> Episode {
     // way, so that whatever the crate sets up lazily per version, per width or per renderer kind
     // is set up by several threads at once (in a cold process image, for the first time ever).
     if n_tasks >= 2 && rng.chance(1, 7) {
+        note_pattern("herd_on_first_use");
         let mut prefix: Vec<OpSpec> = Vec::new();
         let version = *rng.pick(&[1u8, 1, 2, 3, 4, 7]);
         let forced = rng.chance(2, 3);
@@ -184,6 +199,7 @@ fn gen_episode_inner(verif_seed: u64, index: u64) -> Episode {
         shared_builders,
         shared_qrs,
         tasks,
+        patterns: PATTERNS.with(|p| std::mem::take(&mut *p.borrow_mut())),
     }
 }
 
@@ -701,6 +717,7 @@ fn gen_change_between_renders(rng: &mut Rng, sw: &Swarm, tg: &mut TaskGen, n_inp
         } else {
             rng.usize_below(setters.len())
         };
+        note_pattern("sibling_renderers");
         let mut sibling = setters.clone();
         sibling[i] = other_value(rng, &setters[i], is_img);
         for s in &setters {
